@@ -10,10 +10,23 @@
  *                z=<hex>   text appended after the written items that is not read (last item only)
  *       mode show : every value by show_to / look_from, every separator by its own print_to_with / scan_from_with call
  *       mode print: ONE print_to_with and ONE scan_from_with call with the format string built from the items
+ *       mode split: one print_to_with call PER ITEM (each continues at the position the previous one returned), ONE scan_from_with
+ *       mode join : ONE print_to_with, one scan_from_with call PER ITEM                     (items as in print mode)
  *   K <S|F> <start> <s|i|f|ld|I<mod><conv>|F[l]<conv>> x=<hex>   read one value from the given text at <start> (look_from; scan_from with the specification)
+ *
+ *   W <S|F> <start> <0|1> <width> <mod><conv> <dec> [z=<hex>]   an Int written and read back with "%[0]<width><mod><conv>": a field width
+ *                                          (and the 0 flag) inside the specification — OUTSIDE the property; correspondence, and the
+ *                                          oracle only where the width is harmless (>= the text written, no zero padding under %i)
+ *   L <S|F> <start> <kind> x=<hex>         as K, and measures the bytes still allocated by the scan_from_with calls afterwards (ASan
+ *                                          malloc/free hooks): witness of the proposed finding KF-C15-scan-fmtbuf-leak
+ *   T <S|F> <start> <kind> x=<hex>         as K, and the oracle looks at the target of a read that raised: witness of the proposed
+ *                                          finding KF-C15-look-clobbers-target
  *
  * prints   O R w=<pos after writing> text=<written bytes> r=<pos after reading | exception> vals=<values read> tell=<ftell | ->
  *          O K r=<pos | exception> val=<value> tell=<ftell | ->
+ *          O W w=<pos> text=<written bytes> r=<pos | exception> val=<value> tell=<ftell | ->
+ *          O L r=<pos | exception> val=<value> tell=<ftell | -> leaked=<bytes>
+ *          O T r=<pos | exception> val=<value> tell=<ftell | ->
  *          C contract=<0|1|2> (after every R observation) is the op inside the property's quantifier, as judged here: 1 yes; 2 yes except
  *                             that a Float which is not a float value goes through a floating specification without `l` (the territory
  *                             of known finding KF-C15-float-spec-narrow); 0 no
@@ -189,6 +202,41 @@ static int in_contract(int is_file, int* base) {
 
 static FILE* raw_file(var f) { return ((struct File*)f)->file; }
 
+/* format text of one item for a call of its own (modes split / join) */
+static const char* item_fmt(Item* it) {
+  switch (it->kind) {
+    case I_STR: case I_INT: case I_FLT: return "%$";
+    case I_ISPEC: case I_FSPEC: return it->spec;
+    case I_PCT: return "%%";
+    default: return (const char*)it->b;
+  }
+}
+
+/* one print_to_with / scan_from_with call with at most one argument */
+static int print_one(var out, int pos, const char* f, var v) {
+  var one[2]; one[0] = v ? v : Terminal; one[1] = Terminal;
+  return print_to_with(out, pos, f, $(Tuple, one));
+}
+static int scan_one(var inp, int pos, const char* f, var v) {
+  var one[2]; one[0] = v ? v : Terminal; one[1] = Terminal;
+  return scan_from_with(inp, pos, f, $(Tuple, one));
+}
+
+/* ---- allocations made and not released inside a window (op L): ASan's allocator hooks ------------------------------------- */
+extern int __sanitizer_install_malloc_and_free_hooks(void (*malloc_hook)(const volatile void*, size_t), void (*free_hook)(const volatile void*));
+#define TRK_MAX 4096
+static volatile int trk_on = 0; static int trk_cnt = 0, trk_overflow = 0;
+static const volatile void* trk_p[TRK_MAX]; static size_t trk_n[TRK_MAX];
+static void trk_malloc(const volatile void* p, size_t n) {
+  if (!trk_on) return;
+  if (trk_cnt == TRK_MAX) { trk_overflow = 1; return; }
+  trk_p[trk_cnt] = p; trk_n[trk_cnt] = n; trk_cnt++;
+}
+static void trk_free(const volatile void* p) {
+  if (!trk_on) return;
+  for (int i = trk_cnt - 1; i >= 0; i--) if (trk_p[i] == p) { trk_p[i] = trk_p[trk_cnt-1]; trk_n[i] = trk_n[trk_cnt-1]; trk_cnt--; return; }
+}
+
 static void op_R(int is_file, long start, int print_mode, size_t lineno) {
   var out = NULL; var exc = NULL;
   var vals[MAXI], targets[MAXI];
@@ -208,7 +256,10 @@ static void op_R(int is_file, long start, int print_mode, size_t lineno) {
   /* ---- write */
   volatile int wpos = (int)start;
   V_TRY(exc, {
-    if (print_mode) wpos = print_to_with(out, (int)start, fmt, ptuple);
+    if (print_mode == 1 || print_mode == 3) wpos = print_to_with(out, (int)start, fmt, ptuple);
+    else if (print_mode == 2) for (int i = 0; i < nitems; i++) {
+      wpos = print_one(out, wpos, item_fmt(&items[i]), vals[i]);
+    }
     else for (int i = 0; i < nitems; i++) {
       if (vals[i]) wpos = show_to(vals[i], out, wpos);
       else wpos = print_to_with(out, wpos, (char*)items[i].b, empty);
@@ -232,7 +283,10 @@ static void op_R(int is_file, long start, int print_mode, size_t lineno) {
   volatile int rpos = (int)start; long tell = -1;
   if (is_file) sseek(out, start, SEEK_SET);
   V_TRY(exc, {
-    if (print_mode) rpos = scan_from_with(out, (int)start, fmt, stuple);
+    if (print_mode == 1 || print_mode == 2) rpos = scan_from_with(out, (int)start, fmt, stuple);
+    else if (print_mode == 3) for (int i = 0; i < nitems; i++) {
+      rpos = scan_one(out, rpos, item_fmt(&items[i]), targets[i]);
+    }
     else for (int i = 0; i < nitems; i++) {
       if (targets[i]) rpos = look_from(targets[i], out, rpos);
       else rpos = scan_from_with(out, rpos, (char*)items[i].b, empty);
@@ -297,20 +351,91 @@ done:
   free(fill);
 }
 
-static void op_K(int is_file, long start, int kind, const char* spec, unsigned char* text, size_t n, size_t lineno) {
+static void op_K(int probe, int is_file, long start, int kind, const char* spec, unsigned char* text, size_t n, size_t lineno) {
   var src = NULL; var exc = NULL; var target = mk_target(kind);
   if (is_file) { src = new_raw(File, $S(tmp_path), $S("w+b")); if (n) fwrite(text, 1, n, raw_file(src)); fflush(raw_file(src)); sseek(src, start, SEEK_SET); }
   else src = new_raw(String, $S((char*)text));
   volatile int rpos = (int)start; long tell = -1;
+  if (probe == 1) { trk_cnt = 0; trk_overflow = 0; trk_on = 1; }
   V_TRY(exc, { if (spec) rpos = scan_from(src, (int)start, spec, target); else rpos = look_from(target, src, (int)start); });
+  trk_on = 0;
   if (!exc && is_file) tell = ftell(raw_file(src));
   char* p = outbuf;
-  if (exc) p += sprintf(p, "K r=%s val=", v_exc_name(exc)); else p += sprintf(p, "K r=%d val=", rpos);
+  if (exc) p += sprintf(p, "%c r=%s val=", "KLT"[probe], v_exc_name(exc)); else p += sprintf(p, "%c r=%d val=", "KLT"[probe], rpos);
   p += val_dump(p, kind, target);
   if (tell >= 0) p += sprintf(p, " tell=%ld", tell); else p += sprintf(p, " tell=-");
-  O("%s", outbuf);
+  if (probe == 2) {
+    O("%s", outbuf);
+    if (exc && kind == I_STR && strcmp(c_str(target), "?") != 0)
+      X("sig=kf-c15-look-clobbers-target line=%zu what=look_from raised %s and left the target holding %zu byte(s) instead of its value", lineno, v_exc_name(exc), strlen(c_str(target)));
+  } else if (probe == 1) {
+    /* still allocated: everything but the buffers that legitimately outlive the call (the String target's, the exception message's) */
+    size_t leaked = 0; int blocks = 0;
+    const void* keep1 = kind == I_STR ? (const void*)((struct String*)target)->val : NULL;
+    struct Exception* ex = current(Exception);
+    const void* keep2 = ex && ex->msg ? (const void*)((struct String*)ex->msg)->val : NULL;
+    for (int i = 0; i < trk_cnt; i++) if ((const void*)trk_p[i] != keep1 && (const void*)trk_p[i] != keep2) { leaked += trk_n[i]; blocks++; }
+    p += sprintf(p, " leaked=%zu", leaked);
+    O("%s", outbuf);
+    if (trk_overflow) X("sig=C15-harness line=%zu what=allocation tracker overflow", lineno);
+    if (leaked) X("sig=kf-c15-scan-fmtbuf-leak line=%zu what=the read raised %s and left %zu bytes in %d block(s) allocated (fmt_buf of scan_from_with)", lineno, exc ? v_exc_name(exc) : "nothing", leaked, blocks);
+  } else O("%s", outbuf);
   del_raw(target); del_raw(src);
   (void)lineno;
+}
+
+/* a field width (and the 0 flag) inside an integer specification */
+static void op_W(int is_file, long start, int zero, long width, Item* it, size_t lineno) {
+  var out = NULL; var exc = NULL;
+  char fmt[32]; snprintf(fmt, sizeof fmt, "%%%s%ld%s", zero ? "0" : "", width, it->spec + 1);
+  var val = new_raw(Int, $I(it->iv)); var target = new_raw(Int, $I(77));
+  char* fill = malloc((size_t)start + 1); for (long i = 0; i < start; i++) fill[i] = FILL[i % 5]; fill[start] = 0;
+  if (is_file) { out = new_raw(File, $S(tmp_path), $S("w+b")); if (start) fwrite(fill, 1, (size_t)start, raw_file(out)); }
+  else out = new_raw(String, $S(fill));
+  volatile int wpos = (int)start;
+  V_TRY(exc, { wpos = print_to(out, (int)start, fmt, val); });
+  if (exc) { O("W w=%s", v_exc_name(exc)); X("sig=C15-exception line=%zu what=writing raised %s", lineno, v_exc_name(exc)); goto done; }
+  size_t tlen = 0;
+  if (is_file) {
+    FILE* f = raw_file(out); fflush(f); fseek(f, start, SEEK_SET); tlen = fread(textbuf, 1, sizeof textbuf - 1, f);
+    fseek(f, 0, SEEK_END); if (zlen) fwrite(zbuf, 1, (size_t)zlen, f); fflush(f);
+  } else {
+    char* s = c_str(out); size_t l = strlen(s);
+    if (l >= (size_t)start) { tlen = l - (size_t)start; memcpy(textbuf, s + start, tlen); }
+    if (zlen) append(out, $S((char*)zbuf));
+  }
+  volatile int rpos = (int)start; long tell = -1;
+  if (is_file) sseek(out, start, SEEK_SET);
+  V_TRY(exc, { rpos = scan_from(out, (int)start, fmt, target); });
+  if (!exc && is_file) tell = ftell(raw_file(out));
+  {
+    char* p = outbuf; p += sprintf(p, "W w=%d text=", wpos); dump(p, textbuf, tlen); p += strlen(p);
+    if (exc) p += sprintf(p, " r=%s val=", v_exc_name(exc)); else p += sprintf(p, " r=%d val=", rpos);
+    p += val_dump(p, I_ISPEC, target);
+    if (tell >= 0) p += sprintf(p, " tell=%ld", tell); else p += sprintf(p, " tell=-");
+    O("%s", outbuf);
+  }
+  {
+    /* the oracle speaks only where the width is harmless: at least the text libc writes without it, no zero padded under %i;
+     * and what follows does not continue the number */
+    char plain[64]; snprintf(plain, sizeof plain, it->spec, it->iv); size_t pl = strlen(plain);
+    int nb = zlen > 0 ? zbuf[0] : -1; int digit = nb >= '0' && nb <= '9'; int xx = nb == 'x' || nb == 'X';
+    int zerotext = conv_int(it->width, 0, it->iv) == 0; int cont;
+    if (it->conv == 'x' || it->conv == 'X') cont = (nb >= 0 && is_xdig(nb)) || (zerotext && xx);
+    else if (it->conv == 'i') cont = digit || (zerotext && xx);
+    else cont = digit;
+    int safe = width >= 1 && (size_t)width >= pl && !(zero && it->conv == 'i' && (size_t)width > pl);
+    if (safe && !cont) {
+      int64_t want = conv_int(it->width, is_signed_conv(it->conv), it->iv);
+      if (exc) X("sig=C15-value-int-width line=%zu what=reading back with %s raised %s", lineno, fmt, v_exc_name(exc));
+      else if (rpos != wpos || (size_t)(wpos - start) != tlen || (is_file && tell != start + (long)tlen))
+        X("sig=C15-value-int-width line=%zu what=%s: writer returned %d, reader %d, %zu characters written", lineno, fmt, wpos, rpos, tlen);
+      else if (c_int(target) != want)
+        X("sig=C15-value-int-width line=%zu what=wrote %" PRId64 " with %s, read %" PRId64 ", expected %" PRId64, lineno, it->iv, fmt, (int64_t)c_int(target), want);
+    }
+  }
+done:
+  del_raw(val); del_raw(target); if (out) del_raw(out); free(fill);
 }
 
 int main(int argc, char** argv) {
@@ -318,7 +443,9 @@ int main(int argc, char** argv) {
   if (argc < 2) { fprintf(stderr, "usage: h_text <opfile>\n"); return 2; }
   size_t n; char** lines = v_read_lines(argv[1], &n);
   snprintf(tmp_path, sizeof tmp_path, "h_text_%ld.tmp", (long)getpid());
-  size_t nR = 0, nK = 0;
+  size_t nR = 0, nK = 0, nW = 0;
+  (void)current(Exception);   /* the thread's Exception object and its message String exist before any measured window */
+  __sanitizer_install_malloc_and_free_hooks(trk_malloc, trk_free);
   for (size_t li = 0; li < n; li++) {
     char* l = lines[li];
     if (v_skippable(l)) continue;
@@ -327,7 +454,8 @@ int main(int argc, char** argv) {
     if (ntok >= 3 && (strcmp(toks[1], "S") == 0 || strcmp(toks[1], "F") == 0) && parse_nat(toks[2], &start) && start <= 4096) is_file = toks[1][0] == 'F';
     else bad = 1;
     if (!bad && strcmp(toks[0], "R") == 0 && ntok >= 5 && ntok <= MAXI + 4) {
-      int pm = strcmp(toks[3], "print") == 0; if (!pm && strcmp(toks[3], "show") != 0) bad = 1;
+      int pm = strcmp(toks[3], "print") == 0 ? 1 : strcmp(toks[3], "split") == 0 ? 2 : strcmp(toks[3], "join") == 0 ? 3 : 0;
+      if (!pm && strcmp(toks[3], "show") != 0) bad = 1;
       nitems = 0; zlen = 0; pool_used = 0; int seen_z = 0;
       for (int t = 4; t < ntok && !bad; t++) {
         char* tk = toks[t]; Item it; memset(&it, 0, sizeof it);
@@ -356,18 +484,29 @@ int main(int argc, char** argv) {
       }
       if (!bad && nitems == 0) bad = 1;
       if (!bad) { nR++; op_R(is_file, start, pm, li + 1); continue; }
-    } else if (!bad && strcmp(toks[0], "K") == 0 && ntok == 5) {
+    } else if (!bad && strcmp(toks[0], "W") == 0 && (ntok == 7 || ntok == 8)) {
+      Item wit; memset(&wit, 0, sizeof wit); long width = 0; char key[16];
+      snprintf(key, sizeof key, "I%.8s", toks[5]);
+      if ((strcmp(toks[3], "0") != 0 && strcmp(toks[3], "1") != 0) || !parse_nat(toks[4], &width) || width < 1 || width > 40
+          || parse_spec(key, &wit) != I_ISPEC || !parse_i64(toks[6], &wit.iv)) bad = 1;
+      zlen = 0;
+      if (!bad && ntok == 8) {
+        if (strncmp(toks[7], "z=", 2) != 0) bad = 1;
+        else { long len = unhex(toks[7] + 2, zbuf, 200); if (len < 0 || has_byte(zbuf, (size_t)len, 0)) bad = 1; else { zbuf[len] = 0; zlen = len; } }
+      }
+      if (!bad) { nW++; op_W(is_file, start, toks[3][0] == '1', width, &wit, li + 1); continue; }
+    } else if (!bad && (strcmp(toks[0], "K") == 0 || strcmp(toks[0], "L") == 0 || strcmp(toks[0], "T") == 0) && ntok == 5) {
       Item kit; memset(&kit, 0, sizeof kit);
       int kind = strcmp(toks[3], "s") == 0 ? I_STR : strcmp(toks[3], "i") == 0 ? I_INT : strcmp(toks[3], "f") == 0 ? I_FLT
                : parse_spec(strcmp(toks[3], "ld") == 0 ? "Ild" : toks[3], &kit);
       if (kind < 0 || strncmp(toks[4], "x=", 2) != 0) bad = 1;
       long len = bad ? -1 : unhex(toks[4] + 2, pool, MAXB - 1);
       if (len < 0 || start > len || (!is_file && has_byte(pool, (size_t)len, 0))) bad = 1;
-      if (!bad) { pool[len] = 0; nK++; op_K(is_file, start, kind, kind == I_ISPEC || kind == I_FSPEC ? kit.spec : NULL, pool, (size_t)len, li + 1); continue; }
+      if (!bad) { pool[len] = 0; nK++; op_K(toks[0][0] == 'L' ? 1 : toks[0][0] == 'T' ? 2 : 0, is_file, start, kind, kind == I_ISPEC || kind == I_FSPEC ? kit.spec : NULL, pool, (size_t)len, li + 1); continue; }
     } else bad = 1;
     O("bad-op");
   }
   unlink(tmp_path);
-  I("roundtrips=%zu looks=%zu", nR, nK);
+  I("roundtrips=%zu looks=%zu widths=%zu", nR, nK, nW);
   return 0;
 }
